@@ -1372,7 +1372,12 @@ class ValueOutput(Value):
 class ValuePattern(Value):
     def __init__(self, value):
         self.value = value
-        self.pattern = re.compile(value)
+        try:
+            self.pattern = re.compile(value)
+        except (re.error, OverflowError):
+            raise CklRuntimeError(
+                ValueString("ERROR"), "Invalid pattern " + str(value)
+            )
 
     def __hash__(self):
         return hash(self.value)
